@@ -338,7 +338,7 @@ func main() {
 		"traces_validated_against_impl": hs.sequences,
 		"evaluations":                   ts.calls + ts.levelChecks + os1.calls + sb.calls + hs.steps + hs.levelChecks,
 		"distinct_nontrivial":           ts.nontrivial,
-		"rule": fmt.Sprintf("(a) every core tree with <= %d nodes over leaves {observer, JSON IO core over a counting sink} x 9 enablers and wrappers Tee(2-3 ordered children), NewIncreaseLevelCore x 9 enablers, RegisterHooks, NewSampler (budget never exhausted), a dropping sampler (first=0, thereafter=0: declines every named-level entry in Check), NewLazyWith, With; trees whose IncreaseLevel must be refused are checked for the error (and, at the root, for the no-effect behaviour of the zap.IncreaseLevel option) and not evaluated further; each accepted tree (x 4 values of the shared AtomicLevel when it uses it) is driven at all 256 levels (<= %d nodes) or 12 boundary levels through %d front ends (raw Core.Check+Write, Logger.Log/Check+Write/named methods, SugaredLogger Log/Logf/Logw/Logln and named methods in four styles, zapgrpc Info/Warning/Error/Fatal/Print families) and Enabled at all 256 levels, LevelOf, Logger.Level, V(0..3); non-trivial = the reference delivers the entry to some leaf at some evaluated level and withholds it from some leaf at some level; all enumerated trees are structurally distinct, distinct_behaviours counts distinct reference delivery tables. (a') %d shapes around a first-only sampler (first=1, thereafter=0), each driven twice per level with the same message on a fresh tree per front end (3 front ends; sampling budgets are per level and message): the second call must reach nothing below the sampler. (a'') hook siblings: %d cases = leaf {observer[debug], io[warn]} x {zapcore.RegisterHooks, zap.Hooks option} x a parent with k = 0..8 hooks registered one at a time x 2 or 3 siblings derived from that one parent object with 1 or 2 own hooks each x every order of using the siblings and the parent, each at 8 levels through 3 front ends: exactly the hooks on the path of the logger used fire, once each, iff the leaf accepts. (b) %s",
+		"rule": fmt.Sprintf("(a) every core tree with <= %d nodes over leaves {observer, JSON IO core over a counting sink} x 9 enablers and wrappers Tee(2-3 ordered children), NewIncreaseLevelCore x 9 enablers, RegisterHooks, NewSampler (budget never exhausted), a dropping sampler (first=0, thereafter=0: declines every named-level entry in Check), NewLazyWith, With; trees whose IncreaseLevel must be refused are checked for the error (and, at the root, for the no-effect behaviour of the zap.IncreaseLevel option) and not evaluated further; each accepted tree (x 4 values of the shared AtomicLevel when it uses it) is driven at all 256 levels (<= %d nodes) or 12 boundary levels through %d front ends (raw Core.Check+Write, Logger.Log/Check+Write/named methods, SugaredLogger Log/Logf/Logw/Logln and named methods in four styles, zapgrpc Info/Warning/Error/Fatal/Print families) and Enabled at all 256 levels, LevelOf, Logger.Level, V(0..3); non-trivial = the reference delivers the entry to some leaf at some evaluated level and withholds it from some leaf at some level; all enumerated trees are structurally distinct, distinct_behaviours counts distinct reference delivery tables. (a') %d shapes around a first-only sampler (first=1, thereafter=0), each driven twice per level with the same message on a fresh tree per front end (3 front ends; sampling budgets are per level and message): the second call must reach nothing below the sampler. (a'') hook siblings: %d cases = leaf {observer[debug], io[warn]} x {zapcore.RegisterHooks, zap.Hooks option} x a parent with k = 0..8 hooks registered one at a time x 2 or 3 siblings derived from that one parent object with 1 or 2 own hooks each x every order of using the siblings and the parent, each at 8 levels through 3 front ends: exactly the hooks on the path of the logger used fire, once each, iff the leaf accepts - also when the first hook of every registration returns an error (k <= 3, two hooks per sibling). (b) %s",
 			maxN, fullUpTo, len(frontEnds), os1.shapes, sb.cases, hs.rule),
 		"samples":                    samples,
 		"exhaustive":                 true,
